@@ -17,7 +17,8 @@ type runner struct {
 	mem   map[int]map[int][]int
 	fixed map[int]map[int]bool
 	ops   []op
-	lines []string // O/R/S lines of the case file
+	lines []string  // O/R/S lines of the case file
+	recs  []stepRec // the same, structured (for the in-Coq cross-check)
 	// outcome
 	fails    []failure
 	zone     string // zone of the failing / last zone step
@@ -337,11 +338,13 @@ func (r *runner) step(o op) bool {
 		r.fails = append(r.fails, failure{"panic", fmt.Sprintf("%s panicked: %s", o, lastPanic)})
 		r.zone = zone
 		r.lines = append(r.lines, "S ?")
+		r.recs = append(r.recs, stepRec{o: o, res: res, resOK: zone != "d36"})
 		r.stopped = true
 		return false
 	}
 	pst := r.w.snapshot()
 	r.cur = pst
+	r.recs = append(r.recs, stepRec{o: o, res: res, sn: pst, resOK: zone != "d36", snapOK: zone != "d36"})
 	sizeChanged := ep.applies && res == "ok" && pst.enums[ep.e].size != pre.enums[ep.e].size
 	if zone == "d36" {
 		r.lines = append(r.lines, "S ?") // refs are visited in Go map order: positions not comparable
